@@ -42,6 +42,11 @@ def run(chk, repo):
     bases(chk, repo)
     percpu(chk, repo)
     values(chk, repo)
+    # how many per-CPU values there are (shared with C10): the reader's
+    # index range and stride
+    from . import c10
+    chk.doc("R10.3", "per-CPU value count and stride (shared with C10)")
+    c10.percpu(chk, repo)
 
 
 def layout(chk, repo):
